@@ -1,6 +1,6 @@
 (* C10: what today's code does NOT satisfy. Witnesses are closed by vm_compute. *)
 From Coq Require Import NArith List Bool.
-From OG Require Import C10.Model.
+From OG Require Import C10.Model C10.Regex C10.RegexSearch.
 Import ListNotations.
 Open Scope N_scope.
 
@@ -39,3 +39,69 @@ Proof.
   vm_compute. split; [left; reflexivity | intros []].
 Qed.
 Print Assumptions C10_current_refuted_negated_matchall.
+
+(* ---- today's translation of a regex pattern into a tag filter (Regex.current_match) outside the exact shapes.
+   Strings: web = [119;101;98], db = [100;98], '-' = 45, '0' = 48, '1' = 49. Each witness: (pattern tree, value, what the
+   index matches today, what unanchored matching gives). *)
+Definition web := [119; 101; 98]%N.
+Theorem C10_current_refuted_regex_shapes :
+  (* /[wd]/ on "web": a class becomes exact-value lookups *)
+  (current_match (RClass [(100, 100); (119, 119)]%N) (Some web) = false /\ repaired_match (RClass [(100, 100); (119, 119)]%N) (Some web) = true) /\
+  (* /web|db/ on "web-1": an alternation becomes exact-value lookups *)
+  (current_match (RAlt [RLit false web; RLit false [100; 98]%N]) (Some (web ++ [45; 49]%N)) = false /\
+   repaired_match (RAlt [RLit false web; RLit false [100; 98]%N]) (Some (web ++ [45; 49]%N)) = true) /\
+  (* /web-[0-9]/ on "web-10": literal prefix + exact lookups of the rest *)
+  (current_match (RConcat [RLit false (web ++ [45]%N); RClass [(48, 57)]%N]) (Some (web ++ [45; 49; 48]%N)) = false /\
+   repaired_match (RConcat [RLit false (web ++ [45]%N); RClass [(48, 57)]%N]) (Some (web ++ [45; 49; 48]%N)) = true) /\
+  (* /web.*/ on "xweb": the literal prefix is anchored at the start of the value *)
+  (current_match (RConcat [RLit false web; RStar RAnyNL]) (Some (120 :: web)%N) = false /\
+   repaired_match (RConcat [RLit false web; RStar RAnyNL]) (Some (120 :: web)%N) = true) /\
+  (* /a.c/ on "abxc": the rewrite appends .* and the rest is matched unanchored *)
+  (current_match (RConcat [RLit false [97]%N; RAnyNL; RLit false [99]%N]) (Some [97; 98; 120; 99]%N) = true /\
+   repaired_match (RConcat [RLit false [97]%N; RAnyNL; RLit false [99]%N]) (Some [97; 98; 120; 99]%N) = false).
+Proof. vm_compute. repeat split. Qed.
+Print Assumptions C10_current_refuted_regex_shapes.
+
+Theorem C10_current_refuted_regex_anchors :
+  (* /^web$/ on "web-1": the anchors are stripped, the literal is searched with bytes.Contains *)
+  (current_match (RConcat [RBeginText; RLit false web; REndText]) (Some (web ++ [45; 49]%N)) = true /\
+   repaired_match (RConcat [RBeginText; RLit false web; REndText]) (Some (web ++ [45; 49]%N)) = false) /\
+  (* /^$/ on "web": it matches the empty string, so isAllMatch selects every series *)
+  (current_match (RConcat [RBeginText; REndText]) (Some web) = true /\ repaired_match (RConcat [RBeginText; REndText]) (Some web) = false).
+Proof. vm_compute. repeat split. Qed.
+Print Assumptions C10_current_refuted_regex_anchors.
+
+Theorem C10_current_refuted_regex_escaped :
+  (* /[0-9]+/ on the value "\x01": the item carries 0x00 '1' and the digit of the escape matches *)
+  current_match (RPlus (RClass [(48, 57)]%N)) (Some [1]%N) = true /\ repaired_match (RPlus (RClass [(48, 57)]%N)) (Some [1]%N) = false.
+Proof. vm_compute. repeat split. Qed.
+Print Assumptions C10_current_refuted_regex_escaped.
+
+(* the search with today's translation is not brute force: host =~ /[wd]/ over {host=web} (measurement 1, key 1, value 1) *)
+Theorem C10_current_refuted_regex_search :
+  exists pats strs L m e id,
+    In id (bruteforce (am_repaired pats strs) L m e) /\ ~ In id (search (am_current pats strs) (postings L) m e).
+Proof.
+  exists [(1, RClass [(100, 100); (119, 119)])], [(1, web)], [(mkS 1 [(1, 1)], 5)], 1, (Atom 1 Re 1), 5.
+  vm_compute. split; [left; reflexivity | intros []].
+Qed.
+Print Assumptions C10_current_refuted_regex_search.
+
+(* The tag-filter result cache with today's key (the literal the pattern is reduced to): /a.c/ and /a\.c/ are filed under
+   the same text "a.c", so after host =~ /a.c/ the query host =~ /a\.c/ is answered with the first one's result. Source
+   texts: 1 = a.c, 2 = a\.c (any parser that maps them to these trees). *)
+Theorem C10_current_refuted_tagfilter_cache :
+  exists (parse : list N -> re) (q1 q2 : tfq) (v : option (list N)),
+    tf_key_current parse q1 = tf_key_current parse q2 /\
+    tf_answer parse current_match q1 v <> tf_answer parse current_match q2 v /\
+    cached_run tfq (list N * bool) _ (tf_key_current parse) tf_keqb (tf_answer parse current_match) [] [q1; q2]
+      <> map (tf_answer parse current_match) [q1; q2].
+Proof.
+  exists (fun s => if list_eqb s [97; 46; 99]%N then RConcat [RLit false [97]%N; RAnyNL; RLit false [99]%N]
+                   else RLit false [97; 46; 99]%N),
+         ([97; 46; 99]%N, false), ([97; 92; 46; 99]%N, false), (Some [97; 120; 99]%N).
+  split; [vm_compute; reflexivity |]. split.
+  - vm_compute. discriminate.
+  - intros H. apply (f_equal (fun l => map (fun g => g (Some [97; 120; 99]%N)) l)) in H. vm_compute in H. discriminate.
+Qed.
+Print Assumptions C10_current_refuted_tagfilter_cache.
